@@ -111,6 +111,19 @@ def run_kani(name, tier):
     return out
 
 
+def run_miri(name, tier):
+    import miri_run as MR
+    r = MR.run(timeout=1500 if tier == 'quick' else 5400, tier=tier)
+    out = {'status': r['status'], 'violations': [], 'obligations': [], 'samples': [], 'trusted': ['Miri (nightly)'], 'reason': r.get('detail', ''),
+           'bound': 'fixed call sequences (%s tier)' % tier, 'cases': r.get('tests', 0), 'wall_s': r.get('wall_s', 0), 'name': 'miri_ffi',
+           'domain': 'FFI life cycles (config, context, key/backspace/commit/update events, every read-out, frees; read-outs re-read after the context is freed) executed under Miri: memory safety, UTF-8/NUL checks against the Rust API, leak check at exit'}
+    if r['status'] == 'fail':
+        out['violations'].append({'props': ['C19'], 'unit': 'miri', 'function': 'verif_ffi_miri', 'kind': 'Miri reported an error', 'clause': 'C19 life cycle performs no invalid memory access and leaks nothing; strings equal the Rust API values',
+                                  'rendered': r.get('raw', '')[-3500:], 'input': {'miri_test': 'miri/verif_ffi_miri.rs', 'tier': tier, 'error': r.get('detail', '')[:600]}, 'exit_point': None})
+    out['samples'].append({'miri_test': 'ffi_life_cycles + ffi_fixed_life_cycle', 'verdict': r['status'], 'wall_s': round(r.get('wall_s', 0))})
+    return out
+
+
 def run_static(name):
     import static_scans as SS
     return SS.run(name)
